@@ -2309,12 +2309,15 @@ func (checker *Checker) checkDefaultDestroyParamExpressionKind(
 	case *ast.IndexExpression:
 
 		checker.checkDefaultDestroyParamExpressionKind(arg.TargetExpression, containerDeclarationKind)
-		checker.checkDefaultDestroyParamExpressionKind(arg.IndexingExpression, containerDeclarationKind)
 
+		// If there are no index expression types, the indexing expression was not checked as an expression:
+		// either it is a type (i.e. for an attachment access), or indexing into the target is invalid
 		indexExprType, ok := checker.Elaboration.IndexExpressionTypes(arg)
 		if !ok {
 			return
 		}
+
+		checker.checkDefaultDestroyParamExpressionKind(arg.IndexingExpression, containerDeclarationKind)
 
 		// indexing expressions on arrays can fail, and must be disallowed, but
 		// indexing expressions on dicts, or composites (for attachments) will return `nil` and thus never fail
